@@ -276,6 +276,41 @@ func (m *Model) ruleLOCKORDER(r *Results) {
 		path = []string{s}
 		dfs(s, s, map[string]bool{s: true})
 	}
+	// each acquisition that lies on a cycle is a finding of its own (keyed by the function that
+	// holds the first lock while the second is taken), so that a new way round a known cycle is
+	// still reported
+	onCycle := map[string]bool{}
+	for id := range reported {
+		parts := strings.Split(id, " <-> ")
+		for _, a := range parts {
+			for _, b := range parts {
+				if a != b {
+					onCycle[a+">"+b] = true
+				}
+			}
+		}
+	}
+	for _, f := range sortedKeys(adj) {
+		for _, t := range sortedKeys(adj[f]) {
+			if f == t || !onCycle[f+">"+t] {
+				continue
+			}
+			// only edges whose reverse direction is reachable (they really close a cycle)
+			// keyed by the operations (exported or caller-less functions) on behalf of which the
+			// acquisition happens, not by the helper it sits in: extracting or renaming a helper is
+			// not a new finding, a new operation that goes round the cycle is
+			seenRoot := map[string]bool{}
+			for _, e := range adj[f][t] {
+				for _, root := range m.operationRoots(e.Fn, e.Site) {
+					if seenRoot[root] {
+						continue
+					}
+					seenRoot[root] = true
+					r.bad(rule, "cycle edge / "+f+" then "+t+" / on behalf of "+root, m.instrPos(e.Site), "%s; some other path takes these locks in the opposite order, so the two can deadlock", describe(e))
+				}
+			}
+		}
+	}
 	// every ordered pair that is NOT part of a cycle is a discharged obligation
 	for _, f := range sortedKeys(adj) {
 		for _, t := range sortedKeys(adj[f]) {
@@ -1267,6 +1302,60 @@ func (m *Model) ruleREGISTRY(r *Results) {
 			r.check(bad == "", rule, m.declName(fn)+" / hands out copies only", pos, "every bucket the method returns is the result of the handle-copy function (or nil)", "the registry method returns a bucket that is not a fresh copy (the stored object itself, or the caller's): handles then share one `closed` flag and one reference, so closing one handle disables the others")
 		}
 	}
+	// (a'') whether a bucket is registered is decided from the map that holds the buckets: a "not
+	// there" answer (every result nil) of a registry method that hands out buckets is controlled by
+	// a look-up in a map of buckets, not in a side table (the reference counts forget an in-memory
+	// bucket whose handles are all closed, the bucket map does not)
+	for _, fn := range m.Funcs {
+		if !isRegMethod(fn) || fn.Parent() != nil {
+			continue
+		}
+		res := fn.Signature.Results()
+		handsOut := false
+		for i := 0; i < res.Len(); i++ {
+			if pt, ok := res.At(i).Type().(*types.Pointer); ok && pt.Elem() == types.Type(a.BucketType) {
+				handsOut = true
+			}
+		}
+		if os.Getenv("RL_DEBUG") != "" {
+			fmt.Fprintf(os.Stderr, "DEBUG a'' %s handsOut=%v res=%d\n", m.declName(fn), handsOut, res.Len())
+		}
+		if !handsOut || res.Len() < 2 {
+			continue
+		}
+		for _, ret := range returnsOf(fn) {
+			allNil := true
+			for _, rv := range ret.Results {
+				if c, ok := stripConv(spilledResult(ret, rv)).(*ssa.Const); !ok || c.Value != nil {
+					allNil = false
+				}
+			}
+			if !allNil {
+				continue
+			}
+			bad := ""
+			for _, ct := range controllingConds(fn, ret.Block()) {
+				cd := condOf(ct.If)
+				for _, o := range []ssa.Value{cd.X, cd.Y} {
+					if o == nil {
+						continue
+					}
+					v := stripConv(o)
+					if ex, ok := v.(*ssa.Extract); ok {
+						v = ex.Tuple
+					}
+					if lk, ok := v.(*ssa.Lookup); ok {
+						if mt, ok := lk.X.Type().Underlying().(*types.Map); ok {
+							if pt, ok := mt.Elem().(*types.Pointer); !ok || pt.Elem() != types.Type(a.BucketType) {
+								bad = m.instrPos(ct.If)
+							}
+						}
+					}
+				}
+			}
+			r.check(bad == "", rule, m.declName(fn)+" / registered is decided from the bucket map", m.instrPos(ret), "the not-registered answer depends only on look-ups in the map of buckets", "the registry answers 'no such bucket' from a look-up in a map that does not hold the buckets (at "+bad+"): the side table and the bucket map disagree for an in-memory bucket whose handles are all closed, so open modes and the URL check then see a bucket that exists as absent")
+		}
+	}
 	// (d) Close is idempotent: unregister reachable only when the handle was not closed before, flag set under the lock
 	// the registry methods that shut the store down, themselves or through a helper of the registry
 	unregs := map[*ssa.Function]bool{}
@@ -1724,4 +1813,103 @@ func (m *Model) alwaysCalls(f, target *ssa.Function, depth int) bool {
 	}
 	ok, _ := mustPassThrough(f, through, nil)
 	return ok
+}
+
+// operationRoots: the names of the exported or caller-less functions from which instruction
+// `site` of fn is reached through static calls (closures count for their enclosing function); a
+// caller whose constant boolean arguments make the site unreachable in the callee does not count
+// (`shutDown(ctx, false)` never reaches the deletion).
+func (m *Model) operationRoots(fn *ssa.Function, site ssa.Instruction) []string {
+	type key struct {
+		f *ssa.Function
+		i ssa.Instruction
+	}
+	seen := map[key]bool{}
+	roots := map[string]bool{}
+	var visit func(f *ssa.Function, at ssa.Instruction, d int)
+	visit = func(f *ssa.Function, at ssa.Instruction, d int) {
+		if f == nil || d > 12 {
+			return
+		}
+		if f.Parent() != nil {
+			// a closure: continue from the enclosing function (the closure's creation point)
+			visit(f.Parent(), nil, d+1)
+			return
+		}
+		if seen[key{f, at}] {
+			return
+		}
+		seen[key{f, at}] = true
+		callers := m.staticCallersOf(f)
+		exported := f.Object() != nil && f.Object().Exported()
+		if exported || len(callers) == 0 {
+			roots[m.declName(f)] = true
+		}
+		if exported {
+			return
+		}
+		for _, c := range callers {
+			if at != nil && at.Parent() == f && !reachableWithConstArgs(f, at, c) {
+				continue
+			}
+			visit(c.Parent(), c, d+1)
+		}
+	}
+	visit(fn, site, 0)
+	var out []string
+	for r := range roots {
+		out = append(out, r)
+	}
+	sort.Strings(out)
+	return out
+}
+
+// reachableWithConstArgs: is instruction `at` of f reachable when f is called by `call`, whose
+// constant boolean arguments decide the branches on the corresponding parameters?
+func reachableWithConstArgs(f *ssa.Function, at ssa.Instruction, call ssa.CallInstruction) bool {
+	known := map[*ssa.Parameter]bool{}
+	for i, a := range call.Common().Args {
+		if i >= len(f.Params) {
+			break
+		}
+		if k, ok := stripConv(a).(*ssa.Const); ok && k.Value != nil && k.Value.Kind() == constant.Bool {
+			known[f.Params[i]] = constant.BoolVal(k.Value)
+		}
+	}
+	if len(known) == 0 {
+		return true
+	}
+	c := newCut()
+	for _, iff := range allIfs(f) {
+		cd := condOf(iff)
+		if cd.Op != token.ILLEGAL || cd.X == nil {
+			continue
+		}
+		if p, ok := stripConv(cd.X).(*ssa.Parameter); ok {
+			if v, have := known[p]; have {
+				c.cutEdge(iff.Block(), cd.succWhen(!v))
+			}
+		}
+	}
+	return entryReach(f, c)[at.Block().Index]
+}
+
+// spilledResult: a result that go/ssa spilled into a cell because of a defer: what the return
+// statement stored there (the value itself otherwise).
+func spilledResult(ret *ssa.Return, rv ssa.Value) ssa.Value {
+	ld, ok := rv.(*ssa.UnOp)
+	if !ok || ld.Op != token.MUL {
+		return rv
+	}
+	al, ok := ld.X.(*ssa.Alloc)
+	if !ok {
+		return rv
+	}
+	instrs := ret.Block().Instrs
+	for i := len(instrs) - 1; i >= 0; i-- {
+		if st, ok := instrs[i].(*ssa.Store); ok && st.Addr == ssa.Value(al) {
+			return st.Val
+		}
+	}
+	return rv
 }
